@@ -212,7 +212,7 @@ fn build_side(tape: &mut Tape, idx: usize, desc: &mut String) -> Side {
     };
     let iid = ll_iid(&ll);
     let mut addrs = vec![with_iid(&LL_PREFIX, &iid)];
-    let kind = tape.draw(7);
+    let kind = tape.draw(9);
     let mut rnd = [0u8; 8];
     for (i, b) in rnd.iter_mut().enumerate() {
         *b = mix64(0xadd0 + idx as u64, tape.draw(1 << 20) + i as u64) as u8;
@@ -224,6 +224,10 @@ fn build_side(tape: &mut Tape, idx: usize, desc: &mut String) -> Side {
         3 => addrs.push(with_iid(&[0x20, 0x01, 0x0d, 0xb9, rnd[0], rnd[1], 0, idx as u8], &rnd)),
         4 => addrs.push(with_iid(&LL_PREFIX, &rnd)),
         5 => addrs.push(with_iid(&CTX_PREFIX, &[0, 0, 0, 0xff, 0xfe, 0, rnd[0], rnd[1]])),
+        // inside fe80::/10 but not of the form fe80::/64 that IPHC can compress statelessly: with the interface
+        // identifier of the link-layer address, or a random one
+        7 => addrs.push(with_iid(&[0xfe, 0x80, 0, 0, 0, 0, 0, 7], &iid)),
+        8 => addrs.push(with_iid(&[0xfe, 0xbf, rnd[2], rnd[3], 0, 0, 0, rnd[4]], if rnd[5] & 1 == 0 { &iid } else { &rnd })),
         _ => addrs.push(with_iid(&LL_PREFIX, &[0, 0, 0, 0xff, 0xfe, 0, rnd[0], rnd[1]])),
     }
     // the first address must stay the one derived from the link-layer address in most runs, not all
